@@ -108,13 +108,19 @@ def fam_mesh(ctx, rng):
             break
     if not X.close(mesh.area, sum(areas), 1e-8):
         ctx.violation(fam + ':area', 'area %r expected %r' % (mesh.area, float(sum(areas))), desc)
-    # face centroids
-    for i, (f, gc) in enumerate(zip(faces, mesh.face_centroids)):
+    # face_area_centroids are the area centroids; face_centroids are documented as the vertex means
+    for i, (f, gc, gv) in enumerate(zip(faces, mesh.face_area_centroids, mesh.face_centroids)):
         ec = X.centroid2([fv[j] for j in f])
         e3 = G.embed(frame, o, (float(ec[0]), float(ec[1]))) if d3 else (float(ec[0]), float(ec[1]))
         if not X.pclose(X.fpt(e3), X.fpt(gc), 1e-8, 100.0):
+            ctx.violation(fam + ':face_area_centroid:%s' % ('quad' if len(f) == 4 else 'tri'),
+                          'face %d area centroid %r expected %r' % (i, gc, e3), desc)
+            break
+        em = (sum(fv[j][0] for j in f) / len(f), sum(fv[j][1] for j in f) / len(f))
+        m3 = G.embed(frame, o, (float(em[0]), float(em[1]))) if d3 else (float(em[0]), float(em[1]))
+        if not X.pclose(X.fpt(m3), X.fpt(gv), 1e-8, 100.0):
             ctx.violation(fam + ':face_centroid:%s' % ('quad' if len(f) == 4 else 'tri'),
-                          'face %d centroid %r expected %r' % (i, gc, e3), desc)
+                          'face %d vertex centroid %r expected %r' % (i, gv, m3), desc)
             break
     if not d3:
         tot = sum(areas)
@@ -198,7 +204,30 @@ def fam_closed_forms(ctx, rng):
         ctx.violation('arc2d:area', 'circle area %r' % arc.area, {'r': r})
 
 
-FAMILIES = [(fam_polygon, 40), (fam_face, 25), (fam_mesh, 25), (quad_mesh_general, 10), (fam_polyface, 12), (fam_closed_forms, 15)]
+def fam_mixed_solid(ctx, rng):
+    """closed solids given as a shuffled bag of faces with mixed orientations and arbitrary start vertices (concave caps included):
+    the reported volume is the enclosed volume"""
+    from .C07 import solid_faces, perturb, exact_volume
+    fam, faces, inside = solid_faces(rng)
+    pert, flips = perturb(rng, faces)
+    desc = {'family': fam, 'faces': [f.to_dict() for f in pert]}
+    ctx.count('polyface3d.mixed', key=(fam, len(faces), flips), sample={'family': fam, 'faces': len(faces), 'flipped': flips})
+    ref = abs(exact_volume(faces))
+    try:
+        pf = Polyface3D.from_faces(pert, 0.01)
+        v = pf.volume
+    except Exception as e:
+        ctx.violation('polyface3d:mixed:raises', '%r' % (e,), desc); return
+    if not X.close(v, ref, 1e-8):
+        ctx.violation('polyface3d:volume:mixed_orientation', 'volume %r, enclosed volume %r (%d of %d faces were given inward)' % (
+            v, float(ref), flips, len(faces)), desc)
+    ar = sum(f.area for f in faces)
+    if not X.close(pf.area, ar, 1e-8):
+        ctx.violation('polyface3d:area:mixed_orientation', 'area %r, sum of the face areas %r' % (pf.area, ar), desc)
+
+
+FAMILIES = [(fam_polygon, 40), (fam_face, 25), (fam_mesh, 25), (quad_mesh_general, 10), (fam_polyface, 12), (fam_mixed_solid, 40),
+            (fam_closed_forms, 15)]
 
 
 def explore(ctx):
